@@ -1,9 +1,11 @@
 """C17 - date serial numbers form Excel's 1900 calendar.
 
 Every result of YEAR/MONTH/DAY/DATE/WEEKDAY/EOMONTH/EDATE/YEARFRAC/HOUR/MINUTE/SECOND - called through
-the wrappers a compiled formula calls (vp.lib.fn) and, for a 1 % sample, through ExcelCompiler on a
-one-sheet workbook - is compared with vp.refmodel.calendar, a closed-form model of the 1900 calendar
-written from the statement (no pycel, no datetime).
+the wrappers a compiled formula calls (vp.lib.fn) and, for every 101st case (~1 %), a second time as
+formulas of a one-sheet workbook through ExcelCompiler.evaluate (class Tie: same oracle, same mechanism
+keys, counters prefixed ``wb:``; at workbook level the WEEKDAY window is n, n+7 only) - is compared with
+vp.refmodel.calendar, a closed-form model of the 1900 calendar written from the statement (no pycel,
+no datetime).  An exception at workbook level surfaces as pycel's FormulaEvalError around the original.
 
 Parts of the statement and how each is decided
   days      every serial n: parts(n) as the statement fixes them (0 = 1900-01-00, 1..59 = January and
@@ -36,6 +38,7 @@ Deliberately permissive (the statement is silent or has two readings; both are a
 Not judged at all: years below 1900 in DATE, fractional serials in YEAR/MONTH/DAY, text/logical
 arguments, ties exactly half way between two seconds.
 """
+import math
 import numbers
 import random
 
@@ -140,7 +143,10 @@ class WbEval:
             return [lib.eval_formula(targets[0][1], cells=cells, target=targets[0][0])]
         for t, formula in targets:
             cells[t] = formula
-        comp = wb.compile_mem({'sheets': [['Sheet1', cells]], 'names': {}, 'arrays': [], 'calc': None})
+        try:
+            comp = wb.compile_mem({'sheets': [['Sheet1', cells]], 'names': {}, 'arrays': [], 'calc': None})
+        except Exception as exc:  # noqa - as vp.lib.eval_formula: pycel refusing the workbook is an observation
+            return [('x', f'{type(exc).__name__}: {str(exc)[:120]}')] * len(targets)
         out = []
         for t, _ in targets:
             try:
@@ -160,7 +166,7 @@ def is_number(v):
 
 
 def is_int_valued(v):
-    return is_number(v) and v == int(v)
+    return is_number(v) and math.isfinite(v) and v == int(v)
 
 
 def show(o):
@@ -211,7 +217,7 @@ def check_day(ctx, ev, n):
         elif o[1] != NUM and not (is_int_valued(o[1]) and 1 <= o[1] <= 7):
             bad += 1
             ctx.violation('WEEKDAY/not-in-1..7', f'WEEKDAY({n}) = {show(o)}', case)
-        else:
+        elif n > MAX:
             ctx.count('permissive:weekday-past-9999=' + ('#NUM!' if o[1] == NUM else 'weekday'))
         ctx.count('out_of_range_serials_checked')
         return bad, seen
